@@ -4,8 +4,8 @@ statements with one slot of state (`last_swap`).  The texts compared are `purge_
 i.e. the node's token texts glued together without separators (`glue`).
 -/
 import Selene.Lints.SideEffects
-namespace Selene.Lints.AlmostSwapped
-open Selene.Lua Selene.Lints Selene.Lints.SideEffects
+namespace Selene.LintsB.AlmostSwapped
+open Selene.Lua Selene.LintsB Selene.LintsB.SideEffects
 
 structure Swap where
   names : String × String
@@ -52,4 +52,4 @@ def swapPair (toks : List String) (s1 s2 : Stmt) : Prop :=
     nodeToks toks e2.span = nodeToks toks v1.span ∧ nodeToks toks v2.span = nodeToks toks e1.span
 end Doc
 
-end Selene.Lints.AlmostSwapped
+end Selene.LintsB.AlmostSwapped
